@@ -344,14 +344,14 @@ class C02(Check):
     assumptions = ["GNU ld 2.40 is the reference; lld 14 for cases containing archives",
                    "ld.so binds executable references to the first DT_NEEDED library defining the symbol",
                    "GNU_UNIQUE only inside COMDAT groups; commons never compete with archive members"]
-    quick_cases = 640
+    quick_cases = 480
     thorough_cases = 30000
 
     def strategy(self, tier):
         return raw_strategy(6 if tier == "quick" else 7).map(normalize)
 
     def _link(self, linker, args, d, out):
-        return tools.link(linker, [*args, "-o", out], cwd=d)
+        return symgen.link(linker, [*args, "-o", out], cwd=d)
 
     @symgen.memo_run_case
     def run_case(self, case, ctx):
